@@ -137,7 +137,7 @@ def run(chk):
     if helpers:
         a, tb, cb = next(iter(helpers.values()))
         chk.touched(cb)
-        outs = S.outcomes(cb)
+        outs = normal.rows(S, cb, N, deep=True)
         if S.imprecise:
             chk.note("path cap exceeded in %s" % sorted(S.imprecise))
         chk.extra["consent_table_rows"] = len(outs)
@@ -170,13 +170,16 @@ def run(chk):
                     rep[t[2]] = flow.lab_true(labs)
                 if t[0] == "unop" and t[1] == "Not" and t[2][0] == "field" and t[2][2] in ("presence", "verification") and flow.is_payload_of(t[2][1], lambda x: is_await(x, UVM_CHECK)):
                     rep[t[2][2]] = flow.lab_false(labs)
-                if t[0] == "call" and names.is_(t[1], "PartialEq::ne") and find_sub(t, lambda x: isinstance(x, tuple) and x and x[0] == "call" and names.is_(x[1], "UserValidationMethod::is_verification_enabled")):
-                    # ne(is_verification_enabled(), Some(true)) false  <=> enabled == Some(true)
-                    some_true = find_sub(t, lambda x: isinstance(x, tuple) and x and x[0] == "agg" and x[2] == "Some" and dict(x[3]).get("0") == ("const", 1))
-                    enabled = flow.lab_false(labs) if some_true else None
-                if t[0] == "call" and names.is_(t[1], "PartialEq::eq") and find_sub(t, lambda x: isinstance(x, tuple) and x and x[0] == "call" and names.is_(x[1], "UserValidationMethod::is_verification_enabled")):
-                    some_true = find_sub(t, lambda x: isinstance(x, tuple) and x and x[0] == "agg" and x[2] == "Some" and dict(x[3]).get("0") == ("const", 1))
-                    enabled = flow.lab_true(labs) if some_true else None
+                # capability == Some(true): `cap == Some(true)`, `cap != Some(true)` (false edge), `matches!(cap, Some(true))`
+                is_cap = lambda x: isinstance(x, tuple) and len(x) == 4 and x[0] == "call" and names.is_(x[1], "UserValidationMethod::is_verification_enabled")
+                e = flow.eq_test(t, labs)
+                if e is not None and any(is_cap(x) for x in e[0]) and normal.some(("const", 1)) in e[0]:
+                    enabled = e[1]
+                if flow.asserts_fail(t, labs, is_cap):
+                    enabled = False
+                if flow.is_payload_of(t, is_cap):
+                    a0, pol = flow.bool_atom(t, labs)
+                    enabled = pol
                 aw = find_sub(t, lambda x: is_await(x, UVM_CHECK))
                 if aw is not None:
                     uvm_called = True
@@ -188,9 +191,10 @@ def run(chk):
             desc = "req(up=%s,uv=%s) enabled=%s uvm(called=%s ok=%s) reported(p=%s,v=%s) -> %s" % (req["up"], req["uv"], enabled, uvm_called, uvm_ok, rep["presence"], rep["verification"], o.vstr())
             if o.variant[:1] == ("Ok",):
                 n_ok += 1
-                val = dict(o.value[3]).get("0")
-                base, ups = flag_updates(val)
-                upn = sorted(const_name(u) or "?" for u in ups)
+                val = N.inline(dict(o.value[3]).get("0"))
+                fs = flow.flagset(val)
+                upn = sorted(fs) if fs is not None else ["?"]
+                base = ("const", 0) if fs is not None else val
                 desc += " flags=%s" % upn
                 if req["uv"] and enabled is not True:
                     problems.append("Ok row with uv requested but verification capability not confirmed Some(true): " + desc)
@@ -205,7 +209,7 @@ def run(chk):
                 exp = sorted(([] if not rep["presence"] else ["UP"]) + ([] if not rep["verification"] else ["UV"]))
                 if rep["presence"] is None or rep["verification"] is None:
                     problems.append("Ok row whose flags are not conditioned on both reported results: " + desc)
-                elif upn != exp or not is_empty_flags(base):
+                elif upn != exp or fs is None:
                     problems.append("flags %s (base %s) do not equal reported presence/verification %s: %s" % (upn, flow.term_str(base), exp, desc))
                 if uvm_term is not None:
                     args = uvm_term[2]
@@ -323,23 +327,29 @@ def run(chk):
         if not chk.require("R6 waived presence", "R6|Client::%s|call" % nm, len(calls) == 1, where(co), "expected one %s call" % target):
             continue
         cbk, ct = calls[0]
-        req = flow.simplify_term(Tc.operand(ct["args"][1], cbk, "t"))
+        req = N.inline(Tc.operand(ct["args"][1], cbk, "t"))
         opts = dict(req[3]).get("options") if req and req[0] == "agg" else None
         d = dict(opts[3]) if opts and opts[0] == "agg" else {}
         up_ok = d.get("up") == ("const", 1)
         uvt = d.get("uv")
-        def reads_uv(x):
-            if isinstance(x, tuple) and len(x) == 3 and x[0] == "field" and x[2] == "user_verification":
-                return True
-            if isinstance(x, tuple) and len(x) == 3 and x[0] == "closure" and x[1] in p.bodies:
-                cbody = p.bodies[x[1]]
-                rets = cbody.return_blocks()
-                if len(rets) == 1:
-                    rt = flow.simplify_term(flow.Terms(p, cbody).place(0, (), rets[0], "t"))
-                    return find_sub(rt, lambda y: isinstance(y, tuple) and len(y) == 3 and y[0] == "field" and y[2] == "user_verification") is not None
-            return False
-        uv_ok = isinstance(uvt, tuple) and uvt[0] == "call" and names.is_(uvt[1], "PartialEq::ne") and find_sub(uvt, lambda x: isinstance(x, tuple) and x and x[0] == "agg" and x[2] == "Discouraged") is not None \
-            and find_sub(uvt, reads_uv) is not None
+        # uv is false only for userVerification == discouraged (true when no requirement is given at all)
+        uv_ok = uvt is not None
+        n_tests = 0
+        for cs, v in (normal.cases(uvt) if uvt is not None else []):
+            e = flow.eq_test(v, ("notin", "0"))
+            if e is not None:
+                a, b = tuple(e[0]) if len(e[0]) == 2 else (None, None)
+                is_req = lambda x: isinstance(x, tuple) and len(x) == 3 and x[0] == "field" and x[2] == "user_verification"
+                is_disc = lambda x: isinstance(x, tuple) and len(x) == 4 and x[0] == "agg" and x[2] == "Discouraged"
+                good = e[1] is False and ((is_req(a) and is_disc(b)) or (is_req(b) and is_disc(a)))
+                n_tests += 1 if good else 0
+                uv_ok = uv_ok and good
+            elif v == ("const", 1):
+                # no requirement given: verification is requested
+                uv_ok = uv_ok and all(flow.asserts_fail(t, l, lambda x: True) for t, l in cs) and bool(cs)
+            else:
+                uv_ok = False
+        uv_ok = uv_ok and n_tests >= 1
         chk.ob("R6 waived presence", "R6|Client::%s|up-always-true" % nm, up_ok, where(co, cbk), "Options.up = %s" % flow.term_str(d.get("up")))
         chk.ob("R6 waived presence", "R6|Client::%s|uv-from-requirement" % nm, uv_ok, where(co, cbk), "Options.uv = %s" % flow.term_str(uvt)[:200])
     chk.floor("R1", 12)
